@@ -583,6 +583,16 @@ fn cases(tier: Tier) -> Vec<Case> {
             }
         }
     }
+    // destinations that could be mistaken for standard output / for each other
+    for pair in [
+        vec![Action::Print, Action::FPrint("/dev/stdout".into())],
+        vec![Action::FPrint("/dev/stdout".into()), Action::Print],
+        vec![Action::FPrint("../out".into()), Action::FPrint("out".into())],
+        vec![Action::FPrint0("./out".into()), Action::FPrint0("out".into())],
+        vec![Action::FPrint(".out".into()), Action::FPrint("out".into())],
+    ] {
+        progs.push(pair);
+    }
     // longer plain chains (a third and fourth print action on the same port): model only
     let pa = plain_actions();
     for n in 3..=4usize {
